@@ -175,6 +175,7 @@ package cache
 
 //@ func (*Invalidator).Invalidate
 //@   props C17
+//@   replay invalidator
 //@   requires forall j int :: 0 <= j && j < len(i.Callbacks) ==> i.Callbacks[j] != nil
 //@   let cbs := old(i.Callbacks)
 //@   let last := locked(i.lastRun)
